@@ -190,12 +190,12 @@ func (c *collector) Collect(ch chan<- prometheus.Metric) {
 		ch <- c.targetInfo
 	}
 
-	if c.resourceAttributesFilter != nil && len(c.resourceKeyVals.keys) == 0 {
-		c.createResourceAttributes(metrics.Resource)
-	}
+	// Read (and lazily create) the resource labels under the lock: concurrent
+	// scrapes otherwise race on c.resourceKeyVals.
+	resourceKeyVals := c.resourceAttributes(metrics.Resource)
 
 	for _, scopeMetrics := range metrics.ScopeMetrics {
-		n := len(c.resourceKeyVals.keys) + 2 // resource attrs + scope name + scope version
+		n := len(resourceKeyVals.keys) + 2 // resource attrs + scope name + scope version
 		kv := keyVals{
 			keys: make([]string, 0, n),
 			vals: make([]string, 0, n),
@@ -218,8 +218,8 @@ func (c *collector) Collect(ch chan<- prometheus.Metric) {
 			kv.vals = append(kv.vals, scopeMetrics.Scope.Name, scopeMetrics.Scope.Version)
 		}
 
-		kv.keys = append(kv.keys, c.resourceKeyVals.keys...)
-		kv.vals = append(kv.vals, c.resourceKeyVals.vals...)
+		kv.keys = append(kv.keys, resourceKeyVals.keys...)
+		kv.vals = append(kv.vals, resourceKeyVals.vals...)
 
 		for _, m := range scopeMetrics.Metrics {
 			typ := c.metricType(m)
@@ -551,6 +551,23 @@ func (c *collector) metricType(m metricdata.Metrics) *dto.MetricType {
 		return dto.MetricType_GAUGE.Enum()
 	}
 	return nil
+}
+
+// resourceAttributes returns the resource labels selected by the configured
+// filter, creating them on first use. It is safe to call concurrently.
+func (c *collector) resourceAttributes(res *resource.Resource) keyVals {
+	if c.resourceAttributesFilter == nil {
+		return keyVals{}
+	}
+	c.mu.Lock()
+	empty := len(c.resourceKeyVals.keys) == 0
+	c.mu.Unlock()
+	if empty {
+		c.createResourceAttributes(res)
+	}
+	c.mu.Lock()
+	defer c.mu.Unlock()
+	return c.resourceKeyVals
 }
 
 func (c *collector) createResourceAttributes(res *resource.Resource) {
